@@ -454,11 +454,23 @@ class Visitor(ast.NodeVisitor):
     def visit_Dict(self, node: ast.Dict) -> Union[Dict[Any, Any], Placeholder]:
         """Visit keys and values and assemble a dictionary with the results."""
         recomputed_dict = dict()  # type: Dict[Any, Any]
+        saw_placeholder = False
         for key, val in zip(node.keys, node.values):
-            assert isinstance(key, ast.AST)
             assert isinstance(val, ast.AST)
 
-            recomputed_dict[self.visit(node=key)] = self.visit(node=val)
+            if key is None:
+                # This is a dictionary unpacking, ``{**val}``.
+                recomputed_val = self.visit(node=val)
+                if recomputed_val is PLACEHOLDER:
+                    saw_placeholder = True
+                else:
+                    recomputed_dict.update(recomputed_val)
+            else:
+                assert isinstance(key, ast.AST)
+                recomputed_dict[self.visit(node=key)] = self.visit(node=val)
+
+        if saw_placeholder:
+            return PLACEHOLDER
 
         # Please see "NOTE ABOUT PLACEHOLDERS AND RE-COMPUTATION"
         if any(
